@@ -18,6 +18,7 @@ import (
 	"context"
 	"fmt"
 	"reflect"
+	"sort"
 )
 
 var (
@@ -358,12 +359,30 @@ func write(ctx context.Context, oprot Protocol, tt *TypeMeta, gv reflect.Value) 
 		if err := oprot.WriteMapBegin(ctx, tt.KeyType.TypeID, tt.ValueType.TypeID, gv.Len()); err != nil {
 			return err
 		}
-		iter := gv.MapRange()
-		for iter.Next() {
-			if err := write(ctx, oprot, tt.KeyType, iter.Key()); err != nil {
+		// write the entries in a fixed order (that of their encoding): the bytes end up in generated code
+		keys := gv.MapKeys()
+		encoded := make([]string, len(keys))
+		for i, key := range keys {
+			mem := new(MemoryTransport)
+			tmp := NewBinaryProtocol(mem)
+			if err := write(ctx, tmp, tt.KeyType, key); err != nil {
 				return err
 			}
-			if err := write(ctx, oprot, tt.ValueType, iter.Value()); err != nil {
+			if err := write(ctx, tmp, tt.ValueType, gv.MapIndex(key)); err != nil {
+				return err
+			}
+			encoded[i] = string(mem.Bytes())
+		}
+		order := make([]int, len(keys))
+		for i := range order {
+			order[i] = i
+		}
+		sort.SliceStable(order, func(i, j int) bool { return encoded[order[i]] < encoded[order[j]] })
+		for _, i := range order {
+			if err := write(ctx, oprot, tt.KeyType, keys[i]); err != nil {
+				return err
+			}
+			if err := write(ctx, oprot, tt.ValueType, gv.MapIndex(keys[i])); err != nil {
 				return err
 			}
 		}
